@@ -354,6 +354,71 @@ def trig_request(o, pre, st):
     return any(x.startswith('C:') for x in st['net'])
 
 
+
+def build_life(ctx, tier, rnd, labels=None, extra_pfx=(), depth=None, walks=None, key=None):
+    al = gen.Alphabet(ctx, key=key)
+    labels = labels or LIFE
+    depth = depth or (3 if tier == 'quick' else 4)
+    hs = []
+    pf = [PFX[k] for k in ('empty', 'good1', 'good1pend2', 'good1boot2', 'good2pend1', 'boot2pend3', 'good1boot2pend3')] + list(extra_pfx)
+    for pre in pf:
+        hs += gen.exhaustive_exact(al, labels, depth, prefixes=(pre,), name='L%d_' % len(hs), suffix=('q', 'c'))
+    wl = labels + ['p', 'c', 'q', 'u1b', 'rb12', 'rb221', 'u3rb2', 'u2rb2', 'crb2', 'crb1', 'udl2', 'uh3', 'i2', 'dJ']
+    hs += gen.random_walks(al, wl, [1] * len(wl), walks or (150 if tier == 'quick' else 4000), (10, 40), rnd, name='Lr')
+    return hs
+
+
+def build_C09(ctx, tier, rnd):
+    return build_life(ctx, tier, rnd, labels=['q', 's', 'ok', 'fail', 'R', 'u1', 'u2', 'u3', 'rb1', 'rb5', 'ck2', 'udl3', 'uperr'])
+
+
+def build_C03(ctx, tier, rnd):
+    return build_life(ctx, tier, rnd, labels=['q', 's', 'ok', 'fail', 'R', 'u1', 'u2', 'u3', 'rb2', 'rb5', 'ck2', 'dD2', 'dT1'])
+
+
+def build_C10(ctx, tier, rnd):
+    labels = ['q', 's', 'ok', 'R', 'u1', 'u2', 'rb1', 'rb2', 'rb5', 'rb12', 'rb221', 'rbe', 'crb1', 'crb2', 'u3rb2', 'u2rb2']
+    return build_life(ctx, tier, rnd, labels=labels, depth=3 if tier == 'quick' else 4)
+
+
+def build_C17(ctx, tier, rnd):
+    hs = build_life(ctx, tier, rnd, labels=['s', 'ok', 'fail', 'R', 'u1', 'u2', 'upnone', 'uperr', 'ck2', 'rb1', 'q'])
+    al = gen.Alphabet(ctx)
+    # many failures before an update, restarts in between
+    for n in range(1, 6):
+        seq = []
+        for j in range(n):
+            seq += ['u%d' % (1 + j % 3), 'R', 's', 'fail' if j % 2 == 0 else 'R']
+        hs.append(('c17many%d' % n, [al.init] + al.seq(seq + ['R', 'upnone', 'q', 'upnone'])))
+        hs.append(('c17manyb%d' % n, [al.init] + al.seq(seq + ['uperr', 'u2', 'R', 's', 'ok', 'R', 's', 'ok'])))
+    return hs
+
+
+def build_C18(ctx, tier, rnd):
+    return build_life(ctx, tier, rnd, labels=['c', 'q', 's', 'ok', 'fail', 'R', 'u1', 'u2', 'u3', 'rb1', 'rb2', 'ck2'])
+
+
+def build_C19(ctx, tier, rnd):
+    return build_life(ctx, tier, rnd, labels=['s', 'ok', 'fail', 'R', 'u1', 'u2', 'u3', 'rb1', 'rb2', 'dJ', 'RV', 'q'])
+
+
+def trig_life(o, pre, st):
+    p = pstate(pre)
+    return (p['nb'] is not None or p['lb'] is not None) and o['kind'] in ('update', 'check', 'success', 'failure', 'init', 'start')
+
+
+def trig_rb(o, pre, st):
+    return o['kind'] in ('update', 'check') and bool(o.get('resp')) and bool(o['resp']['rb'])
+
+
+def trig_events(o, pre, st):
+    return any(x.startswith('E:') for x in st['net']) or (isinstance(st['sj'], dict) and st['sj']['evq'] != (pre['sj']['evq'] if isinstance(pre['sj'], dict) else []))
+
+
+def trig_cur(o, pre, st):
+    return o['kind'] == 'curnum' and st['out'] != '0'
+
+
 def mk(build, mons, trig, rule, **kw):
     d = dict(mons=mons, run=lambda pid, tier, seed, model_ok=True: run_lifecycle(pid, tier, seed, build, mons, trig, rule, model_ok=model_ok))
     d.update(kw)
@@ -361,6 +426,18 @@ def mk(build, mons, trig, rule, **kw):
 
 
 PROPS = {
+    'C03': mk(build_C03, [monitors.mon_C03, monitors.mon_C01], trig_life,
+              'exhaustive depth-k continuations of 7 lifecycle prefixes over {query,start,ok,fail,restart,install 1/2/3,rollbacks,check,damage} + random walks (re-install of same number, multi-rollback, junk dirs); non-trivial = distinct (state with a selection or last good patch, state-changing op)'),
+    'C09': mk(build_C09, [monitors.mon_C09, monitors.mon_healthy], trig_life,
+              'exhaustive depth-k continuations of 7 lifecycle prefixes incl. lower-numbered installs and installs during boot + random walks; non-trivial as C03'),
+    'C10': mk(build_C10, [monitors.mon_C10, monitors.mon_C19], trig_rb,
+              'rollback lists (single, multiple, duplicates, empty, unknown numbers) through check and update entry points, exhaustive depth-k from 7 lifecycle states + random walks; non-trivial = distinct (state, call carrying a rollback list)'),
+    'C17': mk(build_C17, [monitors.mon_C17, monitors.mon_C20], trig_events,
+              'exhaustive depth-k lifecycle histories + histories with many failures before an update and restarts in between; non-trivial = distinct (state, op) that sent or queued an event'),
+    'C18': mk(build_C18, [monitors.mon_C18], trig_cur,
+              'exhaustive depth-k lifecycle histories with current/next queries interleaved + random walks; non-trivial = distinct (state, current-patch query answering non-zero)'),
+    'C19': mk(build_C19, [monitors.mon_C19], trig_life,
+              'exhaustive depth-k lifecycle histories with junk directories and release changes + random walks; directory listing after every op; non-trivial as C03'),
     'C05': mk(build_C05, [monitors.mon_C05, monitors.mon_healthy], trig_update,
               'byte-level mutants (flip/truncate/extend at zstd and at bidiff level) of a genuine patch, wrong base, empty/junk downloads, hash-string variants, each from 4 lifecycle states followed by a genuine install; non-trivial = distinct (state, update-with-offer)',
               assumptions=['zstd decoder output (incl. partial output on failure) is an oracle computed by the zstd library outside the updater']),
